@@ -595,6 +595,7 @@ var declPositions = []struct {
 	{"dmapset", nil, func(T, K string) string { return "m := map[string]" + T + "{}; m[\"k\"] = " + K + "; return m[\"k\"]" }, false},
 	{"dglobal", func(T, K string) string { return "var G_NAME " + T + " = " + K }, func(T, K string) string { return "return G_NAME" }, false},
 	{"dconst", func(T, K string) string { return "const C_NAME " + T + " = " + K }, func(T, K string) string { return "x := C_NAME; return x" }, false},
+	{"dconstgroup", func(T, K string) string { return "const (\n\tCA_NAME " + T + " = " + K + "\n\tCB_NAME\n\tCC_NAME\n)" }, func(T, K string) string { return "x := CC_NAME; return x" }, false},
 	{"dvariadic", nil, func(T, K string) string { return "return first(" + K + ", " + K + ")" }, false},
 	{"dmulti", nil, func(T, K string) string { return "var x, y " + T + " = " + K + ", " + K + "; return x + y - y" }, false},
 }
@@ -765,6 +766,8 @@ func (s *script) call(name string, args ...num) goat.Result {
 	switch {
 	case len(args) == 0:
 		tramp = "tramp0"
+	case len(args) == 1 && strings.HasPrefix(name, "f_mixshk"):
+		tramp = "" // its single parameter has the count's type, not T: no trampoline of that shape
 	case len(args) == 1:
 		tramp = "tramp1"
 	case len(args) == 2 && args[0].T == args[1].T && !strings.HasPrefix(name, "f_mixsh"):
@@ -894,6 +897,10 @@ func binScript(t ntype, T string) string {
 			for _, op := range []string{"<<", ">>"} {
 				fmt.Fprintf(&sb, "func f_mixsh_%s_%s_%s(a %s, n %s) any { return a %s n }\n", opName[op], typeName[t], typeName[ct], T, typeName[ct], op)
 				fmt.Fprintf(&sb, "func f_mixshe_%s_%s_%s(a %s, n %s) any { x := a; x %s= n; return x }\n", opName[op], typeName[t], typeName[ct], T, typeName[ct], op)
+				// an untyped constant shifted by a variable takes its type from where the result goes
+				for _, k := range shiftConsts {
+					fmt.Fprintf(&sb, "func f_mixshk%d_%s_%s_%s(n %s) any { var x %s = %d %s n; return x }\n", k, opName[op], typeName[t], typeName[ct], typeName[ct], T, k, op)
+				}
 			}
 		}
 	}
@@ -1023,9 +1030,22 @@ func checkUnary(l *loaded, a num, count func(nontrivial bool)) *ev.Failure {
 	return nil
 }
 
+// shiftConsts are the untyped constants used as left operands of shifts by a variable (they fit every integer type).
+var shiftConsts = []int64{1, 3, 100}
+
 func checkMixedShift(l *loaded, a, n num, count func(bool)) *ev.Failure {
 	if l.t == tF64 || n.T == l.t || n.T == tF64 {
 		return nil
+	}
+	for _, op := range []string{"<<", ">>"} {
+		for _, k := range shiftConsts {
+			want := nativeShiftMixed(op, mk(l.t, k), n)
+			count(true)
+			name := fmt.Sprintf("f_mixshk%d_%s_%s_%s", k, opName[op], typeName[l.t], typeName[n.T])
+			if f := reportBin(l.s, name, fmt.Sprintf("var x %s = %d %s n with n of type %s (an untyped constant shifted by a variable takes the declared type)", l.T, k, op, typeName[n.T]), want, l.opt, n); f != nil {
+				return f
+			}
+		}
 	}
 	for _, op := range []string{"<<", ">>"} {
 		want := nativeShiftMixed(op, a, n)
